@@ -5,10 +5,99 @@ LEVEL = "model_checking"
 OPS = {"c03": {"set_must", "set_opt_existing"}, "c04": {"delete"}}["c04"]
 
 
+def _matched(items):
+    """Positions the real query designates for each (doc, path) - incl. repeats and nested matches."""
+    from harness import absdoc, queryobs
+    out = []
+    for doc, dot in items:
+        data = absdoc.load(absdoc.concretise(doc))
+        loc = absdoc.Locator(data)
+        r = queryobs.run_query(data, loc, dot, "must")
+        if r["out"] != "ok" or not r["hits"]:
+            continue
+        ids = []
+        ok = True
+        for h in r["hits"]:
+            i = loc.locate(h.node, h.parent, h.ref)
+            if i <= 0:
+                ok = False
+                break
+            ids.append(i)
+        if ok:
+            out.append((doc, dot, ids))
+    return out
+
+
+def _delete(items):
+    from harness import absdoc
+    from yamlpath import Processor
+    out = []
+    for doc, dot, ids, exp in items:
+        data = absdoc.load(absdoc.concretise(doc))
+        proc = Processor(absdoc.LOG, data)
+        oc, msg = editobs.apply_step(proc, {"op": "delete", "dot": dot})
+        got = absdoc.abstract(proc.data)
+        if exp["root"]:
+            bad = None if (oc == "nodoc" and not editobs.diff_tables(got, doc)) else \
+                "root is among the matches: expected a refusal and an unchanged document, got %s %s" % (oc, msg)
+        elif oc != "ok":
+            bad = "delete gave %s %s" % (oc, msg)
+        else:
+            d = editobs.diff_tables(got, exp["doc"])
+            bad = ("%s | got %s" % (d, absdoc.concretise(got, "flow").strip())) if d else None
+        if bad:
+            out.append((doc, dot, ids, oc, bad))
+    return out
+
+
 def run(ctx):
-    ops = {"set_must"} if "c04" == "c03" else {"delete"}
-    editobs.run_histories(ctx, ops, "C04", ["MC_Edit_q.cfg"] if ctx.quick else ["MC_Edit_t.cfg"])
+    import json
+    import os
+    from harness import core, querycorpus
+    editobs.run_histories(ctx, {"delete"}, "C04", ["MC_Edit_q.cfg"] if ctx.quick else ["MC_Edit_t.cfg"])
+    # second layer: whatever a path matches on the real code (informational rules, repeats, nesting),
+    # deleting must remove exactly those positions - DeleteNodes of the specification on the observed match set
+    corpus = querycorpus.tlc_corpus(ctx, "MC_Query", ["MC_Query_q2.cfg"] if ctx.quick else ["MC_Query_t1.cfg", "MC_Query_t2.cfg"])
+    step = 7 if ctx.quick else 3
+    pairs = [(d, c["dot"]) for d, cs in corpus for k, c in enumerate(cs) if not c["err"] and (k + len(d)) % step == 0]
+    matched = querycorpus.pmap(_matched, pairs, chunk=500)
+    recs = [{"id": i, "doc": d, "ids": ids} for i, (d, dot, ids) in enumerate(matched)]
+    exp = {}
+    for part in [recs[i:i + 4000] for i in range(0, len(recs), 4000)]:
+        rin, rout = ctx.path("del_%d.in.json" % part[0]["id"]), ctx.path("del_%d.out.json" % part[0]["id"])
+        with open(rin, "w") as fh:
+            json.dump(part, fh)
+        core.run_tlc(ctx, "Batch_Edit", "Batch_Edit.cfg", env={"RECORDS_IN": rin, "VERDICTS_OUT": rout}, workers=1,
+                     name="del_%d" % part[0]["id"], timeout=3600)
+        with open(rout) as fh:
+            for o in json.load(fh):
+                exp[o["id"]] = o
+        os.remove(rin)
+    items = [(d, dot, ids, exp[i]) for i, (d, dot, ids) in enumerate(matched)]
+    n_rep = sum(1 for _, _, ids in matched if len(set(ids)) < len(ids))
+    for doc, dot, ids, oc, bad in querycorpus.pmap(_delete, items, chunk=500):
+        from harness import absdoc
+        kind = "crash" if oc == "crash" else "document"
+        sig = "%s:delete-observed-matches:%s" % (kind, "repeated" if len(set(ids)) < len(ids) else "distinct")
+        if oc == "crash":
+            sig += ":" + bad.split(" @ ")[-1].split(" ")[-1]
+        ctx.violation(sig, "delete %r on %s (matches %s): %s" % (dot, absdoc.concretise(doc, "flow").strip(), ids, bad),
+                      {"kind": "observed", "doc": doc, "dot": dot})
+    ctx.coverage["observed_match_deletes"] = len(items)
+    ctx.coverage["observed_match_deletes_with_repeated_matches"] = n_rep
+    ctx.coverage["evaluations"] += len(items)
+    ctx.coverage["traces_validated_against_impl"] += len(items)
 
 
 def replay(path):
-    return editobs.replay_file(path, "C04")
+    import json
+    with open(path) as fh:
+        rp = json.load(fh)["replay"]
+    if rp.get("kind") != "observed":
+        return editobs.replay_file(path, "C04")
+    from harness import core
+    ctx = core.Ctx("C04replay", "quick", 0)
+    m = _matched([(rp["doc"], rp["dot"])])
+    print("matches:", m)
+    print("VIOLATION property=C04 replay=%s (re-run ./check C04 for the model's expectation)" % path)
+    return 1
